@@ -6,6 +6,9 @@ import RtcModel.SctpSend
 namespace RtcModel.Sctp
 open RtcModel.Generated
 
+theorem u32_eq_zero' (x : UInt32) : x = 0 ↔ x.toNat = 0 := by
+  rw [← UInt32.toNat_inj]; rfl
+
 /-! ### byte codecs -/
 
 theorem rd32_be32 (x : UInt32) : rd32 (UInt8.ofNat (x.toNat / 16777216)) (UInt8.ofNat (x.toNat / 65536 % 256))
@@ -205,5 +208,57 @@ theorem missingPass_tsns (now : Nat) (cm : Bool) (mx : Nat) (mr : UInt32) : ∀ 
     repeat' split
     all_goals rfl
 
+
+
+/-! ### the serially oldest outstanding TSN -/
+
+theorem serialMin_spec (cum : UInt32) : ∀ (q : List SRec), q ≠ [] →
+    ∃ lo, serialMin cum q = some lo ∧ lo ∈ q ∧ ∀ r ∈ q, i32Key (lo.tsn - cum) ≤ i32Key (r.tsn - cum) := by
+  intro q
+  induction q with
+  | nil => intro h; exact absurd rfl h
+  | cons r rest ih =>
+    intro _
+    by_cases hr : rest = []
+    · subst hr
+      exact ⟨r, by simp [serialMin], by simp, by intro x hx; simp at hx; subst hx; exact Nat.le_refl _⟩
+    · obtain ⟨m, hm, hmem, hle⟩ := ih hr
+      simp only [serialMin, hm]
+      by_cases hlt : i32Key (m.tsn - cum) < i32Key (r.tsn - cum)
+      · refine ⟨m, by simp [hlt], by simp [hmem], ?_⟩
+        intro x hx
+        simp only [List.mem_cons] at hx
+        cases hx with
+        | inl e => subst e; omega
+        | inr e => exact hle x e
+      · refine ⟨r, by simp [hlt], by simp, ?_⟩
+        intro x hx
+        simp only [List.mem_cons] at hx
+        cases hx with
+        | inl e => subst e; exact Nat.le_refl _
+        | inr e => have := hle x e; omega
+
+theorem i32NonPos_iff_key (x : UInt32) : i32NonPos x = true ↔ i32Key x ≤ 2147483648 := by
+  have hx := x.toNat_lt
+  have hk : i32Key x = (x.toNat + 2147483648) % 4294967296 := by
+    simp [i32Key, UInt32.toNat_add]
+  rw [hk]
+  simp only [i32NonPos, i32Pos, Bool.not_eq_true', Bool.and_eq_false_iff, bne_eq_false_iff_eq, decide_eq_false_iff_not]
+  constructor
+  · intro h
+    cases h with
+    | inl h0 => have := (u32_eq_zero' x).mp h0; omega
+    | inr h1 =>
+      have : ¬ x.toNat < 2147483648 := by
+        intro hlt; exact h1 (UInt32.lt_iff_toNat_lt.mpr (by simpa using hlt))
+      omega
+  · intro h
+    by_cases h0 : x.toNat = 0
+    · left; exact (u32_eq_zero' x).mpr h0
+    · right
+      intro hlt
+      have := UInt32.lt_iff_toNat_lt.mp hlt
+      simp at this
+      omega
 
 end RtcModel.Sctp
